@@ -41,6 +41,7 @@ func specialMaps() []map[string]string {
 		{},
 		{"http": "80"},
 		{"foo": "x", "file": ""},
+		{"http": "8080", "https": "443", "ftp": "2121", "ws": "80", "file": ""}, // well-known schemes with other default ports
 	}
 }
 
@@ -85,7 +86,7 @@ func optMenuLen(n string) int {
 	case "pathSet", "querySet", "sQuerySet", "fragSet", "sFragSet":
 		return len(encodeSetNames)
 	case "special":
-		return 4
+		return 5
 	case "pre":
 		return len(preFuncs)
 	case "post":
@@ -135,7 +136,7 @@ func buildOption(o OptSpec) url.ParserOption {
 	case "sFragSet":
 		return url.WithSpecialFragmentPathPercentEncodeSet(sets[i%len(sets)])
 	case "special":
-		return url.WithSpecialSchemes(specialMaps()[i%4])
+		return url.WithSpecialSchemes(specialMaps()[i%5])
 	case "pre":
 		return url.WithPreParseHostFunc(preFuncs[i%len(preFuncs)])
 	case "post":
